@@ -6,6 +6,7 @@ import (
 	"fmt"
 	"runtime"
 	"sort"
+	"strings"
 	"sync"
 	"sync/atomic"
 	"time"
@@ -253,6 +254,41 @@ func runC11(c *wk.Ctx) {
 
 func c11Sequential(c *wk.Ctx, ctx context.Context, r *wk.Rand, p *c11Plugin, env *gen.Env, idx int64) {
 	runN := 0
+	// unknown step IDs on schemas with exactly one step and with none (where a "the only step" fallback would hide)
+	for _, stepID := range p.stepIDs() {
+		single := schema.NewCallableSchema(p.schema.StepsValue[stepID])
+		none := schema.NewCallableSchema()
+		raw, _ := gen.ValidRaw(r, p.inShape[stepID], env, 0)
+		for _, cs := range []struct {
+			name string
+			s    *schema.CallableSchema
+		}{{"one-step schema", single}, {"schema without steps", none}} {
+			for _, sid := range []string{"", " ", "no-such-step", strings.ToUpper(stepID), stepID + "x"} {
+				p.rec.mu.Lock()
+				before := len(p.rec.stepCalls)
+				p.rec.mu.Unlock()
+				var err error
+				wit := map[string]any{"schema": cs.name, "declared_step": stepID, "called_step": sid}
+				c.Note("CallStep unknown ID on " + cs.name)
+				if pn, site, msg, _ := wk.Guard(func() { _, _, err = cs.s.CallStep(ctx, fmt.Sprintf("u-%d-%s", idx, sid), sid, cmpx.DeepCopy(raw)) }); pn {
+					c.Violation("C11:panic:CallStep:"+site, "CallStep with an unknown step ID panicked: "+msg, wit)
+					continue
+				}
+				c.Count("callstep")
+				c.Count("unknown_step_id_probes")
+				var bae schema.BadArgumentError
+				if err == nil || !errors.As(err, &bae) {
+					c.Violation("C11:unknown-step:wrong-error", fmt.Sprintf("CallStep(%q) on a %s whose only step is %q returned %T %v, expected a BadArgumentError", sid, cs.name, stepID, err, err), wit)
+				}
+				p.rec.mu.Lock()
+				ran := len(p.rec.stepCalls) - before
+				p.rec.mu.Unlock()
+				if ran != 0 {
+					c.Violation("C11:unknown-step:handler-ran", fmt.Sprintf("a handler ran for the unknown step ID %q (%s)", sid, cs.name), wit)
+				}
+			}
+		}
+	}
 	for _, stepID := range p.stepIDs() {
 		shape := p.inShape[stepID]
 		descr := stepID + " input " + shape.Describe()
@@ -271,7 +307,7 @@ func c11Sequential(c *wk.Ctx, ctx context.Context, r *wk.Rand, p *c11Plugin, env
 		inputs = append(inputs, h, nil, map[string]any{})
 		outIDs := sortedKeys(p.outShape[stepID])
 		for _, in := range inputs {
-			for _, sid := range []string{stepID, stepID, "no-such-step"} {
+			for _, sid := range []string{stepID, stepID, wk.Pick(r, []string{"no-such-step", "", " ", stepID + " ", strings.ToUpper(stepID), stepID[:len(stepID)-1]})} {
 				// choose the handler's behaviour
 				mode := wk.Pick(r, []string{"declared-ok", "declared-ok", "undeclared", "nonconforming"})
 				oid := wk.Pick(r, outIDs)
@@ -317,7 +353,7 @@ func c11Sequential(c *wk.Ctx, ctx context.Context, r *wk.Rand, p *c11Plugin, env
 				p.rec.mu.Lock()
 				calls := append([]c11Call{}, p.rec.stepCalls[before:]...)
 				p.rec.mu.Unlock()
-				if sid == "no-such-step" {
+				if sid != stepID {
 					var bae schema.BadArgumentError
 					if err == nil || !errors.As(err, &bae) {
 						c.Violation("C11:unknown-step:wrong-error", fmt.Sprintf("CallStep for an unknown step ID returned %T %v, expected a BadArgumentError", err, err), wit)
@@ -410,7 +446,7 @@ func c11Sequential(c *wk.Ctx, ctx context.Context, r *wk.Rand, p *c11Plugin, env
 			}
 			sins = append(sins, nil, "scalar")
 			for _, in := range sins {
-				for _, sid := range []string{stepID, "no-such-step"} {
+				for _, sid := range []string{stepID, wk.Pick(r, []string{"no-such-step", "", strings.ToUpper(stepID)})} {
 					p.rec.mu.Lock()
 					before := len(p.rec.sigCalls)
 					p.rec.mu.Unlock()
@@ -428,7 +464,7 @@ func c11Sequential(c *wk.Ctx, ctx context.Context, r *wk.Rand, p *c11Plugin, env
 					p.rec.mu.Lock()
 					calls := append([]c11Call{}, p.rec.sigCalls[before:]...)
 					p.rec.mu.Unlock()
-					if sid == "no-such-step" || sshape == nil {
+					if sid != stepID || sshape == nil {
 						if err == nil {
 							c.Violation("C11:unknown-signal-or-step:no-error", "CallSignal for an unknown step or signal ID returned no error", wit)
 						}
